@@ -161,4 +161,40 @@ theorem C20_scopes_without_owner_fall_back_to_global (n c i : Nat) :
     semKey .cls n false c i = semKey .global n false c i ∧ semKey .self n false c i = semKey .global n false c i := by
   simp [semKey]
 
+/-! ### C20: exactly-once release, at the level of single steps -/
+
+/-- C20: a slot is released exactly once: after the wrapper's `finally` ran for a call, no second release (indeed no
+    second `finally`) of that call is possible until it calls again. -/
+theorem C20_no_second_release (s s' : Sem) (c : Nat) (r r' : Bool) (h : sstep s (.finish c r) = some s') :
+    sstep s' (.finish c r') = none := by
+  unfold sstep at h
+  split at h
+  · injection h with h
+    subst h
+    unfold sstep
+    simp [sguard, sapply, Sem.setPhase]
+  · cases h
+
+/-- C20: the wrapper releases in its `finally` exactly when it had acquired: a call that entered without a slot
+    (lax, after an acquisition timeout) gives nothing back, a holder always does. -/
+theorem C20_release_iff_acquired (s s' : Sem) (c : Nat) (r : Bool) (h : sstep s (.finish c r) = some s') :
+    (r = true ↔ s.phase c = .holding) ∧ s'.value = (if s.phase c = .holding then s.value + 1 else s.value) := by
+  unfold sstep at h
+  split at h
+  · rename_i hg
+    injection h with h
+    subst h
+    cases r <;> cases hph : s.phase c <;> simp_all [sguard, sapply, Sem.setPhase]
+  · cases h
+
+/-- C20: a caller cancelled while it waits for a slot, or refused after an acquisition timeout, takes and gives back
+    nothing: the semaphore's value is untouched. -/
+theorem C20_giving_up_while_waiting_leaves_the_value (s s' : Sem) (c : Nat)
+    (h : sstep s (.cancelWaiting c) = some s' ∨ sstep s (.acqTimeout c) = some s') : s'.value = s.value := by
+  rcases h with h | h <;> unfold sstep at h <;> split at h
+  · injection h with h; subst h; simp [sapply, Sem.setPhase]
+  · cases h
+  · injection h with h; subst h; simp only [sapply]; split <;> simp [Sem.setPhase]
+  · cases h
+
 end Bubus.Thm
